@@ -264,7 +264,19 @@ def add_comments(fdp, chooser):
         loc = fdp.source_code_info.location.add()
         loc.path.extend(path)
         loc.span.extend([0, 0, 0])
-        loc.leading_comments = text
+        place = 'leading'
+        if isinstance(text, tuple):       # (text, 'leading' | 'trailing' | 'detached' | 'detached2')
+            text, place = text
+        if place == 'leading':
+            loc.leading_comments = text
+        elif place == 'trailing':
+            loc.trailing_comments = text
+        elif place == 'detached':
+            loc.leading_detached_comments.append(text)
+        else:
+            ws = text.split(' ')
+            half = max(1, len(ws) // 2)
+            loc.leading_detached_comments.extend([' '.join(ws[:half]), ' '.join(ws[half:])])
     return fdp
 
 
